@@ -6,7 +6,8 @@ CONSTANTS
   FieldSet <- MCFieldSet
   Admissible <- MCAdmissible
   MaxVariants = 2
-  MaxFields = 2
+  MaxFields = 3
+  Narrow = TRUE
   Vals = {0, 1}
 INVARIANTS ImplMeetsProp CloneFromIsClone
 CHECK_DEADLOCK FALSE
